@@ -1,6 +1,8 @@
 /-! C15: the task queue protocol of `taskqueue/taskqueue.go` (the dispatcher `process()` as it is now, with the
     `len(backlog) == 0` test in the bounded branch), as an interleaving transition system.  Core-only.
 
+  * panic values are abstracted: a task either returns or panics, whatever the value (string, error, runtime error,
+    typed nil, …) — the handler, if installed, is called once; the harness varies the value.
   * `S`      — the state: the `in` channel, the dispatcher (program counter over the blocking points of `process()`,
                `backlog`, `received`, `processed`), the `tasks` and `ready` channels, the workers
                (idle | running t | reporting, kept as the list of running tasks and the number of reporting workers;
